@@ -278,7 +278,7 @@ def run_shard(ctx: Ctx) -> None:
             return
         run_history(s, fcp, unroll0, ops, rec, text, ctx.known)
 
-    hyp_run(ctx, layout_case(ctx.tier), body, ctx.n(2400, 40000))
+    hyp_run(ctx, layout_case(ctx.tier), body, ctx.n(5600, 40000))
 
 
 def replay(case: Dict[str, Any]) -> Optional[str]:
